@@ -86,6 +86,12 @@ def run(name, tier, seed, other=None):
         first = [l.strip() for l in out.splitlines() if "failed after" in l or "panic after" in l or "_test.go" in l][:3]
         res = {"property": pid, "tier": tier, "seed": seed, "exit": rc, "silent": rc == 0, "wall_s": round(time.time() - t0, 1), "violation_lines": viol[:4], "first_failure": first,
                "repo_head": sh(["git", "-C", "/repo", "rev-parse", "--short", "HEAD"])[1].strip()}
+        if rc == 1:
+            res["output_tail"] = out[-8000:]
+            for v in viol[:2]:  # keep the replay: the next run of the check clears replays/
+                rpth = v.split("replay=")[-1].strip()
+                if os.path.exists(rpth):
+                    shutil.copy(rpth, os.path.join(d, "alarm-" + os.path.basename(rpth)))
         rp = os.path.join(d, "result.json")
         allres = json.load(open(rp)) if os.path.exists(rp) else {}
         allres[tier + ("" if seed is None else "-seed" + seed) + ("" if other is None else "-by-" + other)] = res
